@@ -13,6 +13,7 @@ import (
 
 	"github.com/Eyevinn/mp4ff/hevc"
 
+	"verif/internal/esgen"
 	"verif/internal/harness"
 	"verif/internal/nalgen"
 )
@@ -147,7 +148,7 @@ func TestHEVCKnownFindings(t *testing.T) {
 	seen := map[string]bool{}
 	for _, kf := range cases {
 		seen[kf.Switch] = true
-		if _, ok := hevcAvoidKnown[kf.Switch]; !ok {
+		if _, ok := esgen.HEVCAvoidKnown[kf.Switch]; !ok {
 			t.Errorf("reproducer for unknown switch %s", kf.Switch)
 		}
 		raw, err := json.Marshal(kf.Case)
@@ -209,7 +210,7 @@ func TestHEVCKnownFindings(t *testing.T) {
 			t.Errorf("%s replays differently from the in-code case", path)
 		}
 	}
-	for name := range hevcAvoidKnown {
+	for name := range esgen.HEVCAvoidKnown {
 		if !seen[name] {
 			t.Errorf("avoid switch %s has no reproducer", name)
 		}
